@@ -870,10 +870,15 @@ def _run_sessions(ctx):
     if ctx.extended:
         n, m = n * 4, m * 4
     sessions = [gen_session(rng, big=(not ctx.quick) and rng.random() < 0.1) for _ in range(n)]
-    for i in range(0, len(sessions), 100):
-        eval_sessions(ctx, sessions[i:i + 100])
+    from harness import c02
+    for i in range(0, len(sessions), 50):
+        eval_sessions(ctx, sessions[i:i + 50])
+        if c02.hang_verdict_reached(ctx):       # many calls did not return and the violation is recorded
+            return
     for _ in range(m):
         eval_machine_sequence(ctx, gen_machine_sequence(rng, big=not ctx.quick and rng.random() < 0.2))
+        if c02.hang_verdict_reached(ctx):
+            return
 
 
 def replay_sessions(ctx, payload):
